@@ -23,7 +23,9 @@ RULE = ('cases = client connections through the real HttpProtocolHandler+HttpPro
         'Proxy-Connection, Proxy-Authorization, a client Via, Connection, Expect, User-Agent, operator-disabled names; framing = '
         'none | Content-Length (0, leading zeros) | chunked with random layouts: hex case, leading zeros, extensions, last-chunk '
         'extensions, trailers, empty body), each request cut at random points / at every CR-LF boundary / into single bytes / '
-        'not at all, later requests fed after the previous response completed; --disable-headers and --basic-auth configured in '
+        'not at all; the origin\'s answer to request k (whole or in two parts) arrives before request k+1 starts OR between two of its pieces '
+        '(also while k+1 is the 3rd/4th request: handle_pipeline_response path); in a third of the runs the first sends on the upstream socket '
+        'are short writes / would-block; --disable-headers and --basic-auth configured in '
         'part of the runs; a boundary stream (bodies around the 128 KiB re-chunking size), a stream of requests outside the '
         'domain (CONNECT, origin-form, bad credentials, connect failure, Transfer-Encoding lists, duplicated framing fields, '
         'damaged bytes, several requests packed into one segment) for the correspondence only.  Each connection yields one FConn term: the requests (abstract syntax, rendered inside Coq) with one or more '
@@ -287,12 +289,45 @@ def mutate(rng, raw):
 
 def conn_case(cfg, reqs, cuts, **kw):
     """reqs: list of dict(abs=<abstract request> | None, raw=bytes); cuts: one cut list per request;
-    segs (optional): several such segmentations of the same bytes, each run on a connection of its own"""
+    segs (optional): several such segmentations of the same bytes, each run on a connection of its own;
+    scheds (optional, per segmentation): per request i >= 1 the data the origin sends in answer to request i-1 as
+    [(j, bytes)]: arrives just before the j-th piece of request i (j = 0: before the request starts);
+    sends (optional, per segmentation): outcomes of the first send() calls on the upstream socket (int = accept at
+    most that many bytes, 'block' = BlockingIOError), afterwards everything is accepted"""
     segs = kw.pop('segs', None) or [cuts]
     return dict(kind=kw.pop('kind', 'conn'), cfg=cfg, reqs=reqs, segs=segs, connect_ok=kw.pop('connect_ok', True), **kw)
 
 def segs_of(case):
     return case.get('segs') or [case['cuts']]
+
+RESPONSES = [b'HTTP/1.1 200 OK\r\nContent-Length: 2\r\n\r\nok',
+             b'HTTP/1.1 200 OK\r\nTransfer-Encoding: chunked\r\n\r\n2\r\nok\r\n0\r\n\r\n',
+             b'HTTP/1.1 404 Not Found\r\nContent-Length: 0\r\nX-A: b\r\n\r\n']
+
+def gen_sched(rng, reqs, seg):
+    """when the origin's answers arrive, relative to the pieces of the following request"""
+    out = [[]]
+    for i in range(1, len(reqs)):
+        n = len(H.cut(reqs[i]['raw'], seg[i]))
+        resp = rng.choice(RESPONSES)
+        j = 0 if (n < 2 or rng.random() < 0.4) else rng.randrange(1, n)
+        if rng.random() < 0.3:
+            c = rng.randrange(1, len(resp))
+            j2 = j if rng.random() < 0.5 else rng.randrange(j, n)
+            out.append([(j, resp[:c]), (j2, resp[c:])])
+        else:
+            out.append([(j, resp)])
+    return out
+
+def gen_sends(rng):
+    if rng.random() < 0.65:
+        return []
+    return [rng.choice([1, 2, 7, 30, 100, 'block']) for _ in range(rng.randint(1, 8))]
+
+def with_schedules(rng, case, always=False):
+    case['scheds'] = [gen_sched(rng, case['reqs'], seg) for seg in case['segs']]
+    case['sends'] = [gen_sends(rng) for _ in case['segs']]
+    return case
 
 def generate(rng, tier):
     logging.disable(logging.CRITICAL)
@@ -302,13 +337,13 @@ def generate(rng, tier):
     made = 0
     while made < nreq:
         cfg = gen_cfg(rng)
-        k = rng.choice([1, 1, 2, 3])
+        k = rng.choice([1, 1, 2, 3, 3, 4])
         reqs = []
         for i in range(k):
             a = gen_request(rng, cfg, first=(i == 0), last=(i == k - 1))
             reqs.append(dict(abs=a, raw=render_request(a)))
         made += k
-        cases.append(conn_case(cfg, reqs, None, segs=[[gen_cuts(rng, q['raw']) for q in reqs] for _ in range(nseg)]))
+        cases.append(with_schedules(rng, conn_case(cfg, reqs, None, segs=[[gen_cuts(rng, q['raw']) for q in reqs] for _ in range(nseg)])))
     # boundary stream: bodies around the default re-chunking size (128 KiB), patterned so that the Coq terms stay small
     for n in ([131072] if tier != 'thorough' else [131071, 131072, 131073, 262145]):
         cfg = dict(disable=[], auth=None, agent=agent())
@@ -321,7 +356,7 @@ def generate(rng, tier):
                                    last=b'0', last_ext=b'', trailers=[])) if kind == 'chunked'
                      else ('cl', (b'Content-Length', b' ', b'%d' % n, b''), body))
             raw = render_request(a)
-            cases.append(conn_case(cfg, [dict(abs=a, raw=raw, big=True)], [[len(raw) // 2]], kind='big'))
+            cases.append(conn_case(cfg, [dict(abs=a, raw=raw, big=True)], [[len(raw) // 2]], kind='big', sends=[[5000, 'block', 1, 70000]]))
     # requests outside the domain: correspondence only (and, for te-list, the known finding)
     nbad = 90 if tier != 'thorough' else 2500
     for _ in range(nbad):
@@ -372,7 +407,7 @@ def generate(rng, tier):
         reqs = [q for q in reqs if q['raw']]
         if not reqs:
             continue
-        cases.append(conn_case(cfg, reqs, [gen_cuts(rng, q['raw']) for q in reqs], kind='outside', connect_ok=connect_ok))
+        cases.append(with_schedules(rng, conn_case(cfg, reqs, [gen_cuts(rng, q['raw']) for q in reqs], kind='outside', connect_ok=connect_ok)))
     # Transfer-Encoding with a coding list whose final coding is chunked (known finding)
     for _ in range(3 if tier != 'thorough' else 40):
         cfg = dict(disable=[], auth=None, agent=agent())
@@ -407,19 +442,35 @@ def pieces_of(case, seg=None):
     seg = segs_of(case)[0] if seg is None else seg
     return [H.cut(q['raw'], cuts) for q, cuts in zip(case['reqs'], seg)]
 
-def run_seg(case, flags, seg):
+def run_seg(case, flags, seg, sched=None, sends=None):
     import sim
     script = None if case['connect_ok'] else [sim.io_error('refused')]
     s = sim.Sim(flags=flags, connect_script=script)
-    counts, per_req, outcome = [], [], 0
+    if sends:
+        items = [sim.io_error('block') if x == 'block' else int(x) for x in sends]
+        s.on_connect = lambda sock: sock.script_send(*items)
+    counts, per_req, outcome, fed, gi = [], [], 0, [], 0
+    forwarded_prev = False
     try:
-        for ps in pieces_of(case, seg):
+        for i, ps in enumerate(pieces_of(case, seg)):
             before = len(s.upstreams[0].out) if s.upstreams else 0
-            for p in ps:
+            plan = sorted(((min(int(j), len(ps) - 1), d) for j, d in ((sched[i] if sched and i < len(sched) else None) or [(0, RESPONSES[0])])),
+                          key=lambda x: x[0]) if i > 0 else []
+            for k, p in enumerate(ps):
+                if s.torn:
+                    break
+                while plan and plan[0][0] <= k:
+                    _, d = plan.pop(0)
+                    if forwarded_prev and s.upstreams and not s.upstreams[0].closed and not s.torn:
+                        # the origin's answer to the previous request (or a part of it) arrives now
+                        fed.append((gi, bytes(d)))
+                        s.upstreams[0].feed(bytes(d))
+                        s.run()
                 if s.torn:
                     break
                 s.client.feed(p)
                 x = s.run()
+                gi += 1
                 counts.append(len(s.upstreams[0].out) if s.upstreams else 0)
                 if isinstance(x, tuple) and x[0] == 'raised':
                     outcome = 1000 + C.exn_code(x[1])
@@ -427,14 +478,14 @@ def run_seg(case, flags, seg):
                     outcome = 1
             up = bytes(s.upstreams[0].out) if s.upstreams else b''
             per_req.append(up[before:])
+            forwarded_prev = len(up) > before
             if s.torn:
                 break
-            if s.upstreams and not s.upstreams[0].closed and len(up) > before:
-                # the origin answers; the next request is sent after the response has been relayed
-                s.upstreams[0].feed(RESPONSE)
-                s.run()
+        if forwarded_prev and not s.torn and s.upstreams and not s.upstreams[0].closed:
+            s.upstreams[0].feed(RESPONSES[0])
+            s.run()
         up = bytes(s.upstreams[0].out) if s.upstreams else b''
-        return dict(outcome=outcome, up=up, counts=counts, per_req=per_req, n_up=len(s.upstreams))
+        return dict(outcome=outcome, up=up, counts=counts, per_req=per_req, n_up=len(s.upstreams), sched=fed)
     finally:
         s.close()
 
@@ -442,7 +493,10 @@ def run_impl(case):
     logging.disable(logging.CRITICAL)
     case['cfg'] = dict(case['cfg'], agent=agent())      # corpus cases: the Via value of the tree under test
     flags = get_flags(case['cfg'])
-    runs = [run_seg(case, flags, seg) for seg in segs_of(case)]
+    segs = segs_of(case)
+    scheds = case.get('scheds') or [None] * len(segs)
+    sends = case.get('sends') or [None] * len(segs)
+    runs = [run_seg(case, flags, seg, sc, sn) for seg, sc, sn in zip(segs, scheds, sends)]
     out = dict(runs[0])
     out['runs'] = runs
     return out
@@ -704,8 +758,9 @@ def coq_term(case, out):
     for seg, run in zip(segs_of(case), out['runs']):
         groups.setdefault(run['up'], []).append((seg, run))
     for up, rs in groups.items():
-        runs = ['(%s, %d, %s)' % (C.coq_list(coq_cuts(q['raw'], cuts) for q, cuts in zip(case['reqs'], seg)), run['outcome'],
-                                  C.coq_list(str(n) for n in run['counts'])) for seg, run in rs]
+        runs = ['(%s, %s, %d, %s)' % (C.coq_list(coq_cuts(q['raw'], cuts) for q, cuts in zip(case['reqs'], seg)),
+                                      C.coq_list('(%d, %s)' % (gi, cb(d)) for gi, d in run['sched']), run['outcome'],
+                                      C.coq_list(str(n) for n in run['counts'])) for seg, run in rs]
         terms.append('FConn %s %s %s %s %s' % (coq_cfg(cfg), C.coq_bool(case['connect_ok']), C.coq_list(reqs), C.coq_list(runs), f(up)))
     if not big and not is_tunnel(case):
         for q, w in zip(case['reqs'], out['per_req']):
@@ -733,21 +788,29 @@ def model_expr(case):
     seg = segs_of(case)[0]
     datas = C.coq_list(cb(q['raw']) for q in case['reqs'])
     cuts = C.coq_list(coq_cuts(q['raw'], c) for q, c in zip(case['reqs'], seg))
-    return 'let \'(o, counts) := run_one %s %s %s %s in (outcome_code o, upstream_bytes (outcome_state o), counts)' % (
-        coq_cfg(case['cfg']), C.coq_bool(case['connect_ok']), datas, cuts)
+    out = run_impl(case)
+    sched = C.coq_list('(%d, %s)' % (gi, cb(d)) for gi, d in out['runs'][0]['sched'])
+    return 'let \'(o, counts) := run_one %s %s %s %s %s in (outcome_code o, upstream_bytes (outcome_state o), counts)' % (
+        coq_cfg(case['cfg']), C.coq_bool(case['connect_ok']), datas, cuts, sched)
 
 def shrink(case, fails):
     cur = dict(case)
     # one segmentation, fewer requests, then fewer cuts
-    for seg in segs_of(case):
-        t = dict(cur, segs=[seg])
+    scheds = case.get('scheds') or [None] * len(segs_of(case))
+    sends = case.get('sends') or [None] * len(segs_of(case))
+    for seg, sc, sn in zip(segs_of(case), scheds, sends):
+        t = dict(cur, segs=[seg], scheds=[sc], sends=[sn])
         if fails(t):
             cur = t
             break
     else:
         return case
+    if cur.get('sends') and cur['sends'][0]:
+        t = dict(cur, sends=[None])
+        if fails(t):
+            cur = t
     while len(cur['reqs']) > 1:
-        t = dict(cur, reqs=cur['reqs'][:-1], segs=[cur['segs'][0][:-1]])
+        t = dict(cur, reqs=cur['reqs'][:-1], segs=[cur['segs'][0][:-1]], scheds=[(cur['scheds'][0] or [])[:-1] or None] if cur.get('scheds') else None)
         if fails(t):
             cur = t
         else:
